@@ -16,7 +16,7 @@ import (
 // address in its key, which is what lets the monitor attribute each changed record to an owner.
 //
 //	staking      0x31|lp(del)|lp(val)             delegation
-//	             0x71|lp(val)|lp(del)             delegation-by-validator index
+//	             0x71|lp(val)|del                 delegation-by-validator index
 //	             0x32|lp(del)|lp(val)             unbonding delegation
 //	             0x33|lp(val)|lp(del)             unbonding-by-validator index
 //	             0x34|lp(del)|lp(src)|lp(dst)     redelegation
@@ -62,8 +62,11 @@ func recordOwner(ch vh.Change) (kind string, owner common.Address, ok bool) {
 		switch k[0] {
 		case 0x31:
 			return pick(2, 0, "delegation")
-		case 0x71:
-			return pick(2, 1, "delegation-index")
+		case 0x71: // 0x71|lp(val)|del (delegator not length-prefixed)
+			if len(k) < 2 || len(k) < 2+int(k[1]) {
+				return "delegation-index", common.Address{}, false
+			}
+			return "delegation-index", common.BytesToAddress(k[2+int(k[1]):]), true
 		case 0x32:
 			return pick(2, 0, "unbonding")
 		case 0x33:
